@@ -73,7 +73,7 @@ class C13(Check):
     assumptions = [
         "scores are compared within the documented precision 1e-2; everything else exactly, in RefSeq notation",
         "alignment level: for samples with indel alleles only the calls are compared, not the scores (read ends fall differently around the indel in the two builds, so the realigned counts - the evidence - differ)",
-        "a difference in which of several equal-score refinements is reported (both being members of the other build's complete optimal set) is classified as the known tie-choice finding D7, everything else is a violation",
+        "a difference in which of several equal-score refinements is reported (both being members of the other build's complete optimal set, or the optimal set exceeding the 20 refinements enumerated) is classified as the known tie-choice finding D7, everything else is a violation",
     ]
 
     def bound(self):
@@ -270,8 +270,9 @@ class C13(Check):
             s38 = {x[1] for x in full["hg38"][1]}
             sc19 = sorted(round(x[0], 2) for x in r["hg19"][1])
             sc38 = sorted(round(x[0], 2) for x in r["hg38"][1])
+            capped = len(full["hg19"][1]) >= 20 or len(full["hg38"][1]) >= 20      # more optimal refinements than enumerated
             tie = all(abs(a - b) <= 1e-2 for a, b in zip(sc19, sc38)) and len(sc19) == len(sc38) and \
-                all(x[1] in s38 for x in r["hg19"][1]) and all(x[1] in s19 for x in r["hg38"][1])
+                (capped or (all(x[1] in s38 for x in r["hg19"][1]) and all(x[1] in s19 for x in r["hg38"][1])))
             if tie:
                 v.append(("builds/minor-tie-choice", f"{where}: equal scores {sc19}; hg19 reports {r['hg19'][1][:1]}, hg38 reports {r['hg38'][1][:1]}"))
             else:
